@@ -12,6 +12,11 @@ Deep == [type |-> "object", pk |-> <<"o", "x">>,
          ps |-> <<[type |-> "object", pk |-> <<"y">>, ps |-> <<TStr>>], TInt>>]
 
 S(cs) == Str(cs)
+(* twelve different one- and two-letter strings; the first ten are one letter or two letters, all of length <= 2 *)
+StrPool == <<S(<<"a">>), S(<<"b">>), S(<<"c">>), S(<<"a", "b">>), S(<<"b", "a">>), S(<<"a", "c">>), S(<<"c", "a">>),
+             S(<<"b", "c">>), S(<<"c", "b">>), S(<<"a", "a">>), S(<<"b", "b">>), S(<<"c", "c">>)>>
+Strs(n) == SubSeq(StrPool, 1, n)
+DeepArr(item, kw) == [type |-> "object", pk |-> <<"a", "x">>, ps |-> <<[type |-> "array", items |-> item] @@ kw, TInt>>]
 Shapes == {
    [id |-> "int", schemas |-> {TInt, [type |-> "integer", minimum |-> 0]},
     vals |-> {Num(-12), Num(0), Num(28), Num(48)}, garbage |-> {"nonnumeric"}],
@@ -28,7 +33,10 @@ Shapes == {
               \* values that BEGIN with the characters of a path style's prefix ("." for label, ";p=" for matrix)
               S(<<".", "a">>), S(<<"p", "a">>), S(<<";", "p", "=", "a">>),
               \* a slash: content of a path segment only when escaped
-              S(<<"a", "/", "b">>)}, garbage |-> {}],
+              S(<<"a", "/", "b">>),
+              \* characters of different escape classes in ONE text: must-escape next to may-stay-literal ("+" is a space in a
+              \* query and itself in a path; "%" is always escaped)
+              S(<<"a", " ", "+", "b">>), S(<<"+", "%", "-">>)}, garbage |-> {}],
    [id |-> "arrint", schemas |-> {[type |-> "array", items |-> TInt], [type |-> "array", items |-> TInt, maxItems |-> 2]},
     vals |-> {Arr(<<Num(28)>>), Arr(<<Num(4), Num(8)>>), Arr(<<Num(12), Num(0), Num(48)>>)}, garbage |-> {"nonnumeric"}],
    [id |-> "arrstr", schemas |-> {[type |-> "array", items |-> TStr]},
@@ -36,7 +44,8 @@ Shapes == {
               Arr(<<S(<<"a", "\t", "b">>), S(<<"c">>)>>), Arr(<<S(<<"a", " ", "b">>), S(<<"c">>)>>),
               Arr(<<S(<<"a", "|", "b">>), S(<<"c", "+">>)>>), Arr(<<S(<<"a", ",", "b">>), S(<<"c">>)>>),
               \* items holding the delimiter of some path style (written escaped there: ParamCodec!Escapable)
-              Arr(<<S(<<"a", ".", "b">>), S(<<"c">>)>>), Arr(<<S(<<"a", ";", "p", "=", "b">>), S(<<"c", ",">>)>>)},
+              Arr(<<S(<<"a", ".", "b">>), S(<<"c">>)>>), Arr(<<S(<<"a", ";", "p", "=", "b">>), S(<<"c", ",">>)>>),
+              Arr(<<S(<<"a", " ", "+">>), S(<<"+", "c">>)>>)},
               \* (an empty string among the items is the open region "empty parameter values": not in the universe)
     garbage |-> {}],
    \* additionalProperties absent / false / a schema; w is a property the schemas do not declare
@@ -45,13 +54,28 @@ Shapes == {
     vals |-> {Obj(<<"x">>, <<Num(4)>>), Obj(<<"x", "y">>, <<Num(4), S(<<"a">>)>>), Obj(<<"y">>, <<S(<<"a", "b">>)>>),
               Obj(<<"w", "x">>, <<Num(8), Num(4)>>),
               \* property values holding the delimiters of the object styles
-              Obj(<<"x", "y">>, <<Num(4), S(<<"a", ",", "b", "=", "c">>)>>), Obj(<<"y">>, <<S(<<"a", ".", "b", ";", "c">>)>>)},
+              Obj(<<"x", "y">>, <<Num(4), S(<<"a", ",", "b", "=", "c">>)>>), Obj(<<"y">>, <<S(<<"a", ".", "b", ";", "c">>)>>),
+              Obj(<<"y">>, <<S(<<"a", " ", "+", "b">>)>>)},
     garbage |-> {"oddpairs"}],
    \* a property NAME holding a delimiter
    [id |-> "objk", schemas |-> {ObjK}, vals |-> {Obj(<<"k,1", "x">>, <<S(<<"a">>), Num(4)>>), Obj(<<"k,1">>, <<S(<<"a", "=">>)>>)},
     garbage |-> {}],
    [id |-> "deep", schemas |-> {Deep},
     vals |-> {Obj(<<"o", "x">>, <<Obj(<<"y">>, <<S(<<"a">>)>>), Num(4)>>), Obj(<<"o">>, <<Obj(<<"y">>, <<S(<<"b">>)>>)>>)},
+    garbage |-> {}],
+   \* arrays below a deepObject (p[a][0]=..&p[a][1]=..): of primitives and of objects, short and of more than ten items
+   \* (two-digit indexes), with the array keywords deciding the verdict beyond the tenth item
+   [id |-> "deeparr", schemas |-> {DeepArr(TStr, <<>>), DeepArr(TStr, [maxItems |-> 10]), DeepArr(TStr, [minItems |-> 11]),
+                                    DeepArr(TStr, [uniqueItems |-> TRUE]), DeepArr([type |-> "string", maxLength |-> 2], <<>>)},
+    vals |-> {Obj(<<"a">>, <<Arr(<<S(<<"a">>)>>)>>), Obj(<<"a", "x">>, <<Arr(<<S(<<"a">>), S(<<"b">>)>>), Num(4)>>),
+              Obj(<<"a">>, <<Arr(Strs(10))>>), Obj(<<"a">>, <<Arr(Strs(11))>>), Obj(<<"a", "x">>, <<Arr(Strs(12)), Num(4)>>),
+              \* the eleventh item repeats the first / is too long
+              Obj(<<"a">>, <<Arr(Strs(10) \o <<S(<<"a">>)>>)>>), Obj(<<"a">>, <<Arr(Strs(10) \o <<S(<<"a", "b", "c">>)>>)>>)},
+    garbage |-> {}],
+   [id |-> "deeparrobj", schemas |-> {DeepArr([type |-> "object", pk |-> <<"y">>, ps |-> <<TStr>>], <<>>),
+                                       DeepArr([type |-> "object", pk |-> <<"y">>, ps |-> <<TStr>>], [maxItems |-> 10])},
+    vals |-> {Obj(<<"a">>, <<Arr([i \in 1..2 |-> Obj(<<"y">>, <<Strs(2)[i]>>)])>>),
+              Obj(<<"a">>, <<Arr([i \in 1..11 |-> Obj(<<"y">>, <<Strs(11)[i]>>)])>>)},
     garbage |-> {}],
    [id |-> "oneof", schemas |-> {[oneOf |-> <<TInt, [type |-> "boolean"]>>]}, vals |-> {Num(28), Bool(TRUE)}, garbage |-> {}],
    [id |-> "anyof", schemas |-> {[anyOf |-> <<TInt, [type |-> "boolean"]>>]}, vals |-> {Num(28), Bool(FALSE)}, garbage |-> {}],
@@ -87,6 +111,7 @@ ModeOK(c, v, m) ==
    \/ m = "min"
    \/ m = "all" /\ c.in \in {"path", "query"} /\ WireM(c, P, v, "all") # WireM(c, P, v, "min")
    \/ m = "rawbr" /\ c.style = "deepObject"
+   \/ m = "alt" /\ c.in \in {"path", "query"} /\ WireM(c, P, v, "alt") \notin {WireM(c, P, v, "min"), WireM(c, P, v, "all")}
 
 (* An exploded form object in the query is spread over query keys of its own: which keys of the request belong to  *)
 (* it is not determined by the wire (OAS leaves it open).  The universe keeps to what is determined: undeclared    *)
@@ -102,7 +127,7 @@ Init ==
    \* ot: what else the request carries -- nothing, an unrelated query parameter z, or an entry named "P" (query names and
    \* cookie names are case-sensitive: it is not the parameter "p")
    \/ \E c \in Cells, sh \in Shapes : \E s \in sh.schemas, v \in sh.vals :
-        /\ Defined(c, v) /\ (sh.id = "deep" => c.style = "deepObject")
+        /\ Defined(c, v) /\ (sh.id \in {"deep", "deeparr", "deeparrobj"} => c.style = "deepObject")
         /\ \E r \in BOOLEAN, d \in BOOLEAN, df \in BOOLEAN, ot \in {"-", "z", "upper"}, m \in Modes :
            /\ (c.in = "path" => r) /\ (d => DecoyOK(c, v))
            /\ (df => ~d /\ HasDefault(sh, s)) /\ (ot \in {"z", "upper"} => ~d /\ ~df)
@@ -116,7 +141,7 @@ Init ==
    \/ \E c \in Cells, sh \in Shapes, r \in BOOLEAN, d \in BOOLEAN, df \in BOOLEAN, ot \in {"-", "z", "upper"} :
         \E s \in sh.schemas :
            /\ AnyDefined(c, sh) /\ (c.in = "path" => r) /\ (d => DecoyOK(c, SomeVal(c, sh)))
-           /\ (sh.id = "deep" => c.style = "deepObject")
+           /\ (sh.id \in {"deep", "deeparr", "deeparrobj"} => c.style = "deepObject")
            /\ (df => HasDefault(sh, s) /\ ~d) /\ (ot \in {"z", "upper"} => ~d)
            /\ (ot = "z" => c.in = "query") /\ (ot = "upper" => c.in \in {"query", "cookie"})
            /\ Attributable(c, sh, s, SomeVal(c, sh), ot)
